@@ -158,4 +158,89 @@ theorem fsync_before_rename_needed (old : Option (Content × Nat)) (fd perm : Na
     simp only [Option.some.injEq, Prod.mk.injEq, Node.file.injEq, and_true] at h
     exact hne h.symm
 
+/-- Leftovers. If every name a call sequence creates is the destination (or below it), a directory on the way to
+    the destination, or temporary (`onlyTemp`, with any notion `tmp` of "temporary" that is inherited by
+    everything below a temporary path), then in every intermediate state — and in the name space found after a
+    crash at any point — every existing path either existed before the operation or is the destination /
+    below it / on the way to it / temporary. A failed or interrupted operation leaves nothing else behind. -/
+theorem leftovers_only_temp (dest : Path) (tmp : Path → Bool)
+    (hmono : ∀ p r, tmp p = true → tmp (p ++ r) = true) (s0 : FS) (t : List Call)
+    (h : onlyTemp dest tmp t = true) (p q : List Call) (hp : t = p ++ q) :
+    (∀ x i, (x, i) ∈ (run s0 p).names →
+      (∃ j, (x, j) ∈ s0.names) ∨ dest.isPrefixOf x = true ∨ x.isPrefixOf dest = true ∨ tmp x = true) ∧
+    (∀ c : Crash s0 p, ∀ x i, (x, i) ∈ c.names →
+      (∃ j, (x, j) ∈ s0.names) ∨ dest.isPrefixOf x = true ∨ x.isPrefixOf dest = true ∨ tmp x = true) := by
+  have key := run_ok dest tmp hmono s0.names t s0 h (fun x i hx => Or.inl ⟨i, hx⟩)
+  constructor
+  · intro x i hx; exact key p q hp x i hx
+  · intro c x i hx
+    have hsp := c.split
+    have : t = c.pre ++ (c.post ++ q) := by rw [hp, ← List.append_assoc, ← hsp]
+    exact key c.pre (c.post ++ q) this x i hx
+
+/-- The harness' concrete notion of "temporary file in the temporary location" is inherited downwards, so
+    `leftovers_only_temp` applies to it. -/
+theorem isTemp_mono (tmpdirs : List Path) (destDir : Path) (prefixes : List String) (p r : Path)
+    (h : isTemp tmpdirs destDir prefixes p = true) : isTemp tmpdirs destDir prefixes (p ++ r) = true := by
+  simp only [isTemp, Bool.or_eq_true, List.any_eq_true, Bool.and_eq_true] at *
+  rcases h with ⟨d, hd, hb⟩ | ⟨hb, hh⟩
+  · left; exact ⟨d, hd, below_append r hb⟩
+  · right
+    refine ⟨below_append r hb, ?_⟩
+    have hlen : destDir.length < p.length := by
+      simp only [below, Bool.and_eq_true, decide_eq_true_eq] at hb; exact hb.2
+    have hne : p.drop destDir.length ≠ [] := by
+      intro hnil
+      have := congrArg List.length hnil
+      simp only [List.length_drop, List.length_nil] at this
+      omega
+    rw [List.drop_append_of_le_length (Nat.le_of_lt hlen)]
+    cases hd : p.drop destDir.length with
+    | nil => exact absurd hd hne
+    | cons a b => rw [hd] at hh; exact hh
+
+/-! ### Non-vacuity: the hypotheses are met by the sequences recorded from the real writers -/
+
+/-- fstree.Put of a new record, TMPDIR on another file system (recorded run, `tmp=cross`): the probe rename
+    fails with EXDEV, the temp file is created next to the destination. -/
+def exCross : List Call :=
+  [.openC ["X", ".f#1"] true true false 0o600 (some 5), .close 5,
+   .openC ["R", "dst", ".f#2"] true true false 0o600 (some 5), .close 5,
+   .rename ["X", ".f#1"] ["R", "dst", ".f#2"], .unlink ["R", "dst", ".f#2"], .unlink ["X", ".f#1"],
+   .openC ["R", "dst", ".f#3"] true true false 0o600 (some 5), .fchmod 5 0o644,
+   .write 5 ⟨1, 0, 4096⟩, .write 5 ⟨1, 4096, 904⟩, .fsync 5, .close 5,
+   .rename ["R", "dst", ".f#3"] ["R", "dst", "f"]]
+
+def exWorld : FS :=
+  { inodes := [dirInode, dirInode, dirInode, { kind := .file, mode := 0o644, data := [⟨0, 0, 100⟩], target := "", clean := true }],
+    names := [(["R", "dst", "f"], 3), (["R", "dst"], 0), (["R"], 1), (["X"], 2)], fds := [] }
+
+example : safePublish exWorld destF (some (.file [⟨0, 0, 100⟩], [])) (some (.file [⟨1, 0, 5000⟩], [])) exCross = true := by decide
+example : (exec (run exWorld (exCross.take 4)) (.rename ["X", ".f#1"] ["R", "dst", ".f#2"])).2 = .err .EXDEV := by decide
+example : onlyTemp destF (isTemp [["X"]] ["R", "dst"] [".f"]) exCross = true := by decide
+example : vview (run exWorld exCross) destF = some (.file [⟨1, 0, 5000⟩], []) := by decide
+/-- the same writer writing the destination in place is rejected (a reader sees the empty file) -/
+example : safePublish exWorld destF (some (.file [⟨0, 0, 100⟩], [])) (some (.file [⟨1, 0, 5000⟩], []))
+    [.openC destF true false true 0o644 (some 5), .write 5 ⟨1, 0, 5000⟩, .fsync 5, .close 5] = false := by decide
+/-- renaming before the data is complete is rejected -/
+example : safePublish exWorld destF (some (.file [⟨0, 0, 100⟩], [])) (some (.file [⟨1, 0, 5000⟩], []))
+    [.openC ["R", "dst", ".f#1"] true true false 0o600 (some 5), .fsync 5, .rename ["R", "dst", ".f#1"] destF,
+     .write 5 ⟨1, 0, 5000⟩, .fsync 5, .close 5] = false := by decide
+/-- a crash outcome exists for every run (the lossless one), so the crash clause quantifies over a non-empty set -/
+example : Nonempty (Crash exWorld exCross) := ⟨Crash.lossless exWorld exCross⟩
+
+/-- archive unpacking (recorded shape): extract below the temp dir, rename the directory into place -/
+def exUnpack : List Call :=
+  [.mkdir ["R", "tmp", "pack"] 0o700, .openC ["R", "tmp", "pack", "a.txt"] true false true 0o644 (some 6),
+   .write 6 ⟨1, 0, 10⟩, .close 6, .mkdir ["R", "tmp", "pack", "sub"] 0o755,
+   .openC ["R", "tmp", "pack", "sub", "b"] true false true 0o600 (some 6), .write 6 ⟨2, 0, 7⟩, .close 6,
+   .rename ["R", "tmp", "pack"] ["R", "dst", "pack"], .chmod ["R", "dst", "pack"] 0o755]
+
+def exTree : Obs := some (.dir, [(["a.txt"], .file [⟨1, 0, 10⟩]), (["sub"], .dir), (["sub", "b"], .file [⟨2, 0, 7⟩])])
+
+example : safePublishDir (baseFS none) ["R", "dst", "pack"] none exTree exUnpack = true := by decide
+/-- extracting directly into the destination is rejected: readers see an incomplete directory -/
+example : safePublishDir (baseFS none) ["R", "dst", "pack"] none exTree
+    [.mkdir ["R", "dst", "pack"] 0o700, .openC ["R", "dst", "pack", "a.txt"] true false true 0o644 (some 6)] = false := by decide
+
 end PB.C17
